@@ -167,6 +167,10 @@ def gen_trace(recipe):
       X = X * xscale
       idx, lab = gen.pairs_from(rng, X, y, 3 * d + 6)
       as_tuples = bool(rng.integers(2))
+      tsize = int(rng.choice([2, 2, 3, 4]))
+      if tsize > 2:
+        # triplets / quadruplets drawn from the point set (points shared between tuples, some only in the 3rd / 4th position)
+        idx = np.array([rng.choice(len(X), size=tsize, replace=False) for _ in range(2 * d + 4)])
       inp = X[idx] if as_tuples else X                     # tuples: points repeat -> must be de-duplicated
       pts = np.vstack(inp) if as_tuples else X
       seed = int(rng.integers(1000))
